@@ -83,6 +83,7 @@ func isVerifyError(err error) bool {
 // - tlsLevel    TLS security level that was estabilished.
 // - tlsErr      Error that prevented TLS from working if tlsLevel != TLSAuthenticated
 func (rd *remoteDelivery) connect(ctx context.Context, conn mxConn, host string, tlsCfg *tls.Config) (tlsLevel module.TLSLevel, tlsErr, err error) {
+	defer verifConnect(rd, &conn, host, &tlsLevel, &tlsErr, &err)
 	tlsLevel = module.TLSAuthenticated
 	if rd.rt.tlsConfig != nil {
 		tlsCfg = rd.rt.tlsConfig.Clone()
@@ -151,6 +152,7 @@ retry:
 }
 
 func (rd *remoteDelivery) attemptMX(ctx context.Context, conn *mxConn, record *net.MX) error {
+	verifMX(rd, conn, record)
 	mxLevel := module.MXNone
 
 	connCtx, cancel := context.WithCancel(ctx)
@@ -206,6 +208,7 @@ func (rd *remoteDelivery) connectionForDomain(ctx context.Context, domain string
 	}
 
 	pooledConn, err := rd.rt.pool.Get(ctx, domain)
+	verifPool(rd, domain, pooledConn)
 	if err != nil {
 		return nil, err
 	}
@@ -272,6 +275,7 @@ func (rd *remoteDelivery) connectionForDomain(ctx context.Context, domain string
 	}
 
 	if err := conn.Mail(ctx, rd.mailFrom, rd.msgMeta.SMTPOpts); err != nil {
+		verifMail(rd, conn, err)
 		// The connection is not added to rd.connections, so Close will not
 		// release the destination limit for it.
 		rd.rt.limits.ReleaseDest(domain)
@@ -312,6 +316,7 @@ func (rd *remoteDelivery) newConn(ctx context.Context, domain string) (*mxConn, 
 
 	region := trace.StartRegion(ctx, "remote/LookupMX")
 	dnssecOk, records, err := rd.lookupMX(ctx, domain)
+	verifLookup(rd, domain, dnssecOk, records, err)
 	region.End()
 	if err != nil {
 		return nil, err
